@@ -151,3 +151,71 @@ func verifHarness_C10_three_requests_inline_T() {
 	verifC10Server(3, false, false, 0)
 	verifAssert(false, "witness")
 }
+
+// Isolation between connections sharing the engine's request/response object
+// pools (sync.Pool may hand out ANY free object): connection A's exchange ends
+// normally, with "Connection: close", or with a failing response write; then
+// two further connections have their requests parsed before either handler
+// runs, and the handlers run in either order. Each connection's wire must hold
+// exactly its own answer.
+func verifHarness_C10_isolation_after_other_connection_ended() {
+	verifBound("connections", 3)
+	verifPoolMode(1)
+	e := verifHTTPEngine()
+	e.Handler = http.HandlerFunc(func(w http.ResponseWriter, r *http.Request) {
+		_, _ = w.Write([]byte(r.URL.Path))
+	})
+	// connection A
+	endA := verifChoose("first_connection_ends", 3)
+	ca := &verifNetConn{failAt: -1}
+	if endA == 2 {
+		ca.closed = true // the peer is gone: every write fails
+	}
+	pa := NewParser(ca, e, NewServerProcessor(), false, nil)
+	reqA := "GET /a HTTP/1.1\r\nHost: h\r\n\r\n"
+	if endA == 1 {
+		reqA = "GET /a HTTP/1.1\r\nHost: h\r\nConnection: close\r\n\r\n"
+	}
+	errA := pa.Parse([]byte(reqA))
+	pa.CloseAndClean(errA)
+	// connections B and C: jobs are queued, then run in a chosen order
+	var jobs []func()
+	mk := func() (*verifNetConn, *Parser) {
+		c := &verifNetConn{failAt: -1}
+		p := NewParser(c, e, NewServerProcessor(), false, func(f func()) bool { jobs = append(jobs, f); return true })
+		return c, p
+	}
+	cb, pb := mk()
+	cc, pc := mk()
+	if pb.Parse([]byte("GET /b HTTP/1.1\r\nHost: h\r\n\r\n")) != nil || pc.Parse([]byte("GET /c HTTP/1.1\r\nHost: h\r\n\r\n")) != nil {
+		verifFail("well-formed-request-rejected", "isolation")
+		return
+	}
+	verifAssertD(len(jobs) == 2, "one-handler-job-per-request", "isolation")
+	if len(jobs) != 2 {
+		return
+	}
+	panics0 := verifPanicCount()
+	if verifChoose("handler_order", 2) == 1 {
+		jobs[1]()
+		jobs[0]()
+	} else {
+		jobs[0]()
+		jobs[1]()
+	}
+	verifAssertD(verifPanicCount() == panics0, "no-panic-in-handler", "isolation")
+	for i, c := range []*verifNetConn{cb, cc} {
+		w := c.wire()
+		d := verifDecodeResponse(w)
+		verifAssertD(d.ok && d.consumed == len(w), "one-response-per-request-until-close", "isolation")
+		if d.ok {
+			verifAssertD(len(d.body) == 2 && d.body[0] == '/' && d.body[1] == byte('b'+i), "response-belongs-to-this-connection", "")
+		}
+	}
+	if endA != 2 {
+		w := ca.wire()
+		d := verifDecodeResponse(w)
+		verifAssertD(d.ok && d.consumed == len(w) && len(d.body) == 2 && d.body[1] == 'a', "response-belongs-to-this-connection", "first")
+	}
+	verifAssert(false, "witness")
+}
